@@ -335,4 +335,28 @@ example : mergeSrcNs ["ns1"] ["ns1", "ns2"] = none := by decide
 example : mergeSrcNs [] ["ns2"] = some ["ns2"] := by decide
 example : mergeSrcNs ["ns1"] [] = some ["ns1"] := by decide
 
+
+/-- the delegate spec in documented terms: `DelegateVisible` (phrased on the effective export set) is the
+    documented exportTo reading of the delegate's own declaration / the mesh default, `.` meaning the
+    delegate's namespace -/
+theorem delegateVisible_declared (m : Mesh) (d : VS) (rootNs : String) (hstar : d.ns ≠ "*") :
+    DelegateVisible m d rootNs →
+      ∃ y ∈ declaredVSExport m d, y = "*" ∨ y = rootNs ∨ (y = "." ∧ d.ns = rootNs) := by
+  intro h
+  rcases h with h | h
+  · obtain ⟨y, hy, he⟩ := mem_vsExport h
+    refine ⟨y, hy, ?_⟩
+    by_cases hd : y = "."
+    · simp only [hd, if_true] at he
+      exact absurd he hstar
+    · simp only [hd, if_false] at he
+      exact Or.inl he
+  · obtain ⟨y, hy, he⟩ := mem_vsExport h
+    refine ⟨y, hy, ?_⟩
+    by_cases hd : y = "."
+    · simp only [hd, if_true] at he
+      exact Or.inr (Or.inr ⟨hd, he⟩)
+    · simp only [hd, if_false] at he
+      exact Or.inr (Or.inl he)
+
 end IstioModel.C07
